@@ -12,6 +12,13 @@ import ClarabelProofs.Lemmas.KktRestore
 import ClarabelProofs.Lemmas.KktUpdate
 import ClarabelProofs.Lemmas.KktUpdateSparse
 import ClarabelProofs.Lemmas.KktFillBlock
+import ClarabelProofs.Lemmas.KktSpec
+import ClarabelProofs.Lemmas.KktCanonical
+import ClarabelProofs.Lemmas.KktInertia
+import ClarabelProofs.Lemmas.KktInertiaSoc
+import ClarabelProofs.Lemmas.KktUpdateAsm
+import ClarabelProofs.Lemmas.KktUpdateTotal
+import ClarabelProofs.Lemmas.KktSigns
 
 namespace Clarabel.C11
 open Clarabel Clarabel.Csc Clarabel.Kkt
@@ -37,30 +44,23 @@ theorem signs_block_length (mp : SparseMap) : mp.dsigns.length = mp.pdim := by
   cases mp <;> rfl
 
 -- ====================================================================================
--- assembly (partial)
+-- assembly: the fill engine
 -- ====================================================================================
 
 section assembly
 variable {α : Type}
 
 /-
-  Intended full statement (`C11.assembly`): for canonical upper-triangular `P`, canonical
-  `A`, any cone list and either triangle, `assembleKktMatrix P A cones shape = .ok (K, map)`
-  with `K` canonical of order `n+m+p`, dense meaning `[P A'; A −0]` + full diagonal + Hs
-  blocks + expansion rows/columns, all maps injective, pairwise disjoint, pointing at the
-  right coordinates, `diag_full[j]` the position of `(j,j)`, `nnz = nnzKKT`.
-
-  Proved here (`assembly_partial`, `assembly_fill_diag_partial`): the *engine* of the
-  assembly.  Every `fill_*` utility is, by definition of the model (checked against the
-  Rust code function by function on every run), `placeAll` over its schedule of
-  `(col,row,value,map slot)`; for ANY schedule run on counters produced by
+  `C11.assembly` in full is carried by the theorems of section `assembly_total` below
+  (`assembly_total`, `assembly_canonical`, `assembly_check_format`, `assembly_exact`,
+  `assembly_dense`, `assembly_maps`, …; round 3).  This section keeps the theorems about the
+  *engine* of the assembly on which they are built.  Every `fill_*` utility is, by definition
+  of the model (checked against the Rust code function by function on every run), `placeAll`
+  over its schedule of `(col,row,value,map slot)`; for ANY schedule run on counters produced by
   `colcount_to_colptr` from column counts that cover the schedule, every entry lands at the
   closed-form slot `colptr₀[col] + #{earlier entries of that column}`, the slots are pairwise
   distinct, each is recorded in its map slot, the counters advance by the column counts and
-  nothing else is written.  NOT carried by a theorem: that the counting pass of
-  `_kkt_assemble_colcounts` produces exactly the column counts of the concatenated fill
-  schedules, the per-column ordering (canonical form), `diag_full`, and the closed form of
-  `nnz` — these are covered by the exhaustive small-scope correspondence + the dense oracle.
+  nothing else is written.
 -/
 
 /-- [S] `C11.assembly_partial`. -/
@@ -160,7 +160,359 @@ example : BlockWF (⟨2, 2, #[0, 1, 3], #[0, 0, 1], #[4, 1, 2]⟩ : Csc Nat) :=
     | 0, _ => decide
     | 1, _ => decide, by rfl, by rfl⟩
 
+
 end assembly
+
+-- ====================================================================================
+-- assembly, end to end (round 3)
+-- ====================================================================================
+
+section assembly_total
+open Clarabel.Lemmas.KktSorted (Canon IsTriu missingDiag)
+open Clarabel.Lemmas.KktSlots (tri)
+open Clarabel.Lemmas.KktFillRun (nSparse)
+open Clarabel.Lemmas.KktTotal Clarabel.Lemmas.KktFinal Clarabel.Lemmas.KktIntended
+open Clarabel.Lemmas.KktSpec
+
+variable {α : Type} [OfNat α 0]
+
+/-
+  Vocabulary (definitions in `Lemmas/Kkt{Sorted,Slots,Total,Final,Intended,Spec}.lean`):
+  * `KktInputs P A cones`: `P` canonical CSC (`Canon`: `colptr` of length `n+1` from `0` to
+    `nnz`, monotone; rows `< m`, strictly increasing per column), upper triangular, square;
+    `A` canonical with `A.n = P.n`; `Σ numel(cones) = A.m`;
+  * `kktDim A cones = n + m + p`, `p = Σ` auxiliary variables of the sparse expansions
+    (2 per second-order cone above the threshold, 3 per generalised power cone);
+  * `tri shape r c`: storage coordinates `(row, col)` of the entry with UPPER coordinates
+    `(r, c)`, `r ≤ c`: `(r, c)` for `triu`, `(c, r)` for `tril`;
+  * `Intended P A cones shape row col v`: the triple is an entry of `P` (upper coords `(r, i)`),
+    a structural zero on the diagonal of a `P` column without diagonal, an entry of `Aᵀ` (upper
+    coords `(i, n + r)`), or a structural zero of a cone: Hs block (diagonal, or dense triangle),
+    expansion vectors (`v,u` / `q,r,p` in the auxiliary columns), expansion diagonal;
+  * `SlotIs K o row col v`: `o = some d`, `d` lies in `[colptr[col], colptr[col+1])`,
+    `rowval[d] = row`, `nzval[d] = v`.
+-/
+
+/-- [S] `C11.assembly_total`: **`assemble_kkt_matrix` never panics and allocates exactly.**
+For every canonical upper-triangular `P` (`n×n`), canonical `A` (`m×n`), every cone list with
+`Σ numel = m` and either triangle, the model returns `.ok (K, map)` with `K` square of order
+`N = n + m + p`, `colptr.len() = N+1`, `colptr[0] = 0`, and
+`colptr[N] = rowval.len() = nzval.len() = nnzKKT`, the closed form
+`nnz(P) + n − nnz_diag(P) + nnz(A) + Σ|Hs blocks| + Σ nnz_vec + p` used for the allocation
+(no allocated slot stays unused, none is missing). -/
+theorem assembly_total (P A : Csc α) (cones : List ConeSpec) (shape : MatrixTriangle)
+    (hin : KktInputs P A cones) :
+    ∃ K map nd, assembleKktMatrix P A cones shape = .ok (K, map) ∧
+      P.countDiagonalEntries .triu = .ok nd ∧
+      K.m = kktDim A cones ∧ K.n = kktDim A cones ∧ K.colptr.size = kktDim A cones + 1 ∧
+      K.colptr[0]? = some 0 ∧ K.colptr[kktDim A cones]? = some (nnzKKT P A cones nd) ∧
+      K.rowval.size = nnzKKT P A cones nd ∧ K.nzval.size = nnzKKT P A cones nd := by
+  obtain ⟨K, map, sched, Kc, nd, R⟩ := assembleKktMatrix_run P A cones shape hin.P_canon
+    hin.P_triu hin.P_square hin.A_canon hin.n_eq hin.m_eq
+  have M := R.mat
+  exact ⟨K, map, nd, R.ok, R.nd_ok, M.m_eq, M.n_eq, M.colptr_size, M.colptr_zero,
+    by rw [← R.len]; exact M.colptr_last, by rw [← R.len]; exact M.rowval_size,
+    by rw [← R.len]; exact M.nzval_size⟩
+
+/-- [S] `C11.assembly_canonical`: the returned matrix is in canonical form — `colptr` is
+non-decreasing (`colptr[c+1] = colptr[c] + #column c`), in every column the row indices are
+strictly increasing and `< N` — and **the diagonal is structurally complete**: every column
+contains its diagonal entry, as the LAST entry in the `triu` layout and the FIRST entry in the
+`tril` layout (so the matrix is upper resp. lower triangular). -/
+theorem assembly_canonical {P A : Csc α} {cones : List ConeSpec} {shape : MatrixTriangle}
+    {K : Csc α} {map : LDLDataMap} (hin : KktInputs P A cones)
+    (h : assembleKktMatrix P A cones shape = .ok (K, map)) (c : Nat) (hc : c < kktDim A cones) :
+    (∃ p q, K.colptr[c]? = some p ∧ K.colptr[c + 1]? = some q ∧ p < q) ∧
+    (K.colRows c).Pairwise (· < ·) ∧ (∀ x ∈ K.colRows c, x < kktDim A cones) ∧
+      DiagPlace shape (K.colRows c) c := by
+  obtain ⟨sched, Kc, nd, R⟩ := asmRun_of_ok hin h
+  have hs := R.cols_sorted hin.P_canon hin.P_triu hin.P_square hin.A_canon hin.n_eq hin.m_eq c hc
+  refine ⟨?_, hs⟩
+  obtain ⟨p, hp, hp1⟩ := R.mat.colptr_succ c hc
+  refine ⟨p, _, hp, hp1, ?_⟩
+  -- the column is not empty: it contains its diagonal
+  have hlen : (K.colRows c).length = Clarabel.Lemmas.KktPlace.cnt c sched := by
+    rw [R.mat.colRows_eq c hc]
+    unfold Clarabel.Lemmas.KktSorted.colRowsOf Clarabel.Lemmas.KktPlace.cnt
+    rw [List.length_map, List.countP_eq_length_filter]
+  have hne : K.colRows c ≠ [] := by
+    intro h0
+    have hd := hs.2.2
+    rw [h0] at hd
+    cases shape <;> simp [DiagPlace] at hd
+  have : 0 < (K.colRows c).length := List.length_pos_iff.mpr hne
+  omega
+
+/-- [S] `C11.assembly_check_format`: the returned matrix is canonical in the sense of property
+C16 (`Clarabel.C16.Canonical`; by `C16.check_format_iff` this is `check_format() = Ok`):
+consistent lengths, monotone `colptr` ending at `nnz`, strictly increasing row indices `< N` in
+every column. -/
+theorem assembly_check_format {P A : Csc α} {cones : List ConeSpec} {shape : MatrixTriangle}
+    {K : Csc α} {map : LDLDataMap} (hin : KktInputs P A cones)
+    (h : assembleKktMatrix P A cones shape = .ok (K, map)) : Clarabel.C16.Canonical K := by
+  obtain ⟨sched, Kc, nd, R⟩ := asmRun_of_ok hin h
+  exact R.canonical hin.P_canon hin.P_triu hin.P_square hin.A_canon hin.n_eq hin.m_eq
+
+/-- [S] `C11.assembly_exact`: **the stored entries are exactly the intended ones** — `(row, v)`
+is stored in column `col` of `K` iff the triple is an entry of `P`, a filled-in diagonal zero, an
+entry of `Aᵀ` (resp. `A` in the `tril` layout), or a structural zero of an Hs block / a sparse
+expansion.  Values of `P` and `A` are carried over unchanged; nothing else is stored. -/
+theorem assembly_exact {P A : Csc α} {cones : List ConeSpec} {shape : MatrixTriangle}
+    {K : Csc α} {map : LDLDataMap} (hin : KktInputs P A cones)
+    (h : assembleKktMatrix P A cones shape = .ok (K, map)) (row col : Nat) (v : α)
+    (hc : col < kktDim A cones) :
+    (row, v) ∈ K.col col ↔ Intended P A cones shape row col v := by
+  obtain ⟨sched, Kc, nd, R⟩ := asmRun_of_ok hin h
+  exact R.mem_col_iff hin.P_canon hin.A_canon row col hc v
+
+/-- [S] `C11.assembly_dense`: the DENSE meaning (`Csc.toDense`, sum of the stored entries at a
+coordinate) of the assembled matrix: the stored value at every intended coordinate (`0 + v`:
+one stored entry, no duplicates), and zero everywhere else — i.e. the upper (resp. lower)
+triangle of `[P Aᵀ; A 0]` with a full structural diagonal, extended by the (still zero) Hs
+blocks and sparse-expansion rows/columns. -/
+theorem assembly_dense [Add α] {P A : Csc α} {cones : List ConeSpec} {shape : MatrixTriangle}
+    {K : Csc α} {map : LDLDataMap} (hin : KktInputs P A cones)
+    (h : assembleKktMatrix P A cones shape = .ok (K, map)) (row col : Nat) :
+    (∀ v, Intended P A cones shape row col v → K.toDense row col = 0 + v) ∧
+    ((∀ v, ¬ Intended P A cones shape row col v) → K.toDense row col = 0) := by
+  obtain ⟨sched, Kc, nd, R⟩ := asmRun_of_ok hin h
+  exact ⟨fun v hv => R.toDense_intended hin.P_canon hin.P_triu hin.P_square hin.A_canon hin.n_eq
+    hin.m_eq hv, fun hno => R.toDense_other hin.P_canon hin.A_canon hno⟩
+
+/-- [S] `C11.assembly_maps`: **every index map points at the coordinate it is supposed to**
+(`MapsOut`): `map.P[j]` / `map.A[j]` at the (transposed/offset) coordinate of entry `j` with its
+value; `map.Hsblocks` at the diagonal resp. packed-triangle coordinates of each cone's block;
+the SOC `u, v, D` and GenPow `p, q, r, D` vectors of the `i`-th sparse cone at its auxiliary
+columns/rows; `map.diag_full[c]` at `(c, c)` for every column; `map.diagP = diag_full[..n]`. -/
+theorem assembly_maps {P A : Csc α} {cones : List ConeSpec} {shape : MatrixTriangle}
+    {K : Csc α} {map : LDLDataMap} (hin : KktInputs P A cones)
+    (h : assembleKktMatrix P A cones shape = .ok (K, map)) : MapsOut P A cones shape K map := by
+  obtain ⟨sched, Kc, nd, R⟩ := asmRun_of_ok hin h
+  exact R.maps hin.P_canon hin.P_triu hin.P_square hin.A_canon hin.n_eq hin.m_eq
+
+/-- [S] `C11.assembly_signs`: the sign vector `dsigns` that `_fill_signs` records for the maps
+returned by the assembly, COLUMN BY COLUMN of the assembled matrix: `+1` on the `n` primal
+columns, `−1` on the `m` cone columns, and on the auxiliary columns `pcol + j` that the assembly
+gave to each sparse cone: `[-1, +1]` (second-order cone: `v` column, `u` column), `[-1, -1, +1]`
+(generalised power cone: `q`, `r`, `p` columns); its length is the order of `K`. -/
+theorem assembly_signs {P A : Csc α} {cones : List ConeSpec} {shape : MatrixTriangle}
+    {K : Csc α} {map : LDLDataMap} (hin : KktInputs P A cones)
+    (h : assembleKktMatrix P A cones shape = .ok (K, map)) :
+    ∃ ds, fillSigns A.m A.n map.sparse_maps = .ok ds ∧ ds.size = K.n ∧
+      (∀ c, c < A.n → ds[c]? = some 1) ∧
+      (∀ c, A.n ≤ c → c < A.n + A.m → ds[c]? = some (-1)) ∧
+      (∀ pre cn post j, cones = pre ++ cn :: post → j < Clarabel.Kkt.conePdim cn →
+        ds[A.n + A.m + (pre.map Clarabel.Kkt.conePdim).sum + j]?
+          = (Clarabel.Lemmas.KktSigns.coneDsigns cn)[j]?) := by
+  obtain ⟨sched, Kc, nd, R⟩ := asmRun_of_ok hin h
+  obtain ⟨ds, h1, h2, h3, h4, h5⟩ := R.signs_at
+  exact ⟨ds, h1, by rw [h2, R.mat.n_eq], h3, h4, h5⟩
+
+/-- [S] `C11.assembly_map_sizes`: the index vectors keep their allocated lengths: one slot per
+stored entry of `P` and of `A`, `Σ|Hs blocks|` slots, one expansion map per sparse-expandable cone. -/
+theorem assembly_map_sizes {P A : Csc α} {cones : List ConeSpec} {shape : MatrixTriangle}
+    {K : Csc α} {map : LDLDataMap} (hin : KktInputs P A cones)
+    (h : assembleKktMatrix P A cones shape = .ok (K, map)) :
+    map.P.size = P.nnz ∧ map.A.size = A.nnz ∧ map.Hsblocks.size = hsblocksLen cones ∧
+      map.sparse_maps.size = (cones.filterMap expansionMap).length := by
+  obtain ⟨sched, Kc, nd, R⟩ := asmRun_of_ok hin h
+  exact R.sizes
+
+/-- [S] `C11.assembly_map_coord_P` (`coord(map.P[j]) = coord_P(j)`, spelled out for `triu`):
+stored entry `j` of column `i` of `P` (row `r`, value `v`) sits at `d = map.P[j]`, inside
+column `i` of `K`, with `rowval[d] = r` and `nzval[d] = v`. -/
+theorem assembly_map_coord_P {P A : Csc α} {cones : List ConeSpec}
+    {K : Csc α} {map : LDLDataMap} (hin : KktInputs P A cones)
+    (h : assembleKktMatrix P A cones .triu = .ok (K, map)) (i j r : Nat) (v : α) (hi : i < P.n)
+    (hlo : P.colptr.getD i 0 ≤ j) (hhi : j < P.colptr.getD (i + 1) 0)
+    (hr : P.rowval[j]? = some r) (hv : P.nzval[j]? = some v) :
+    ∃ d p q, map.P[j]? = some d ∧ K.colptr[i]? = some p ∧ K.colptr[i + 1]? = some q ∧
+      p ≤ d ∧ d < q ∧ K.rowval[d]? = some r ∧ K.nzval[d]? = some v := by
+  obtain ⟨d, hd, p, q, h1, h2, h3, h4, h5, h6⟩ :=
+    (assembly_maps hin h).P_map i j r v hi hlo hhi hr hv
+  exact ⟨d, p, q, hd, h1, h2, h3, h4, h5, h6⟩
+
+/-- [S] `C11.assembly_map_coord_A` (spelled out for `triu`): stored entry `j` of column `i` of
+`A` (row `r`, value `v`) sits at `d = map.A[j]`, inside column `n + r` of `K` (the transposed,
+offset coordinate), with `rowval[d] = i` and `nzval[d] = v`. -/
+theorem assembly_map_coord_A {P A : Csc α} {cones : List ConeSpec}
+    {K : Csc α} {map : LDLDataMap} (hin : KktInputs P A cones)
+    (h : assembleKktMatrix P A cones .triu = .ok (K, map)) (i j r : Nat) (v : α) (hi : i < A.n)
+    (hlo : A.colptr.getD i 0 ≤ j) (hhi : j < A.colptr.getD (i + 1) 0)
+    (hr : A.rowval[j]? = some r) (hv : A.nzval[j]? = some v) :
+    ∃ d p q, map.A[j]? = some d ∧ K.colptr[r + A.n]? = some p ∧ K.colptr[r + A.n + 1]? = some q ∧
+      p ≤ d ∧ d < q ∧ K.rowval[d]? = some i ∧ K.nzval[d]? = some v := by
+  obtain ⟨d, hd, p, q, h1, h2, h3, h4, h5, h6⟩ :=
+    (assembly_maps hin h).A_map i j r v hi hlo hhi hr hv
+  exact ⟨d, p, q, hd, h1, h2, h3, h4, h5, h6⟩
+
+/-- [S] `C11.assembly_diag_full`: `diag_full[c]` is, for EVERY column `c < N`, a position inside
+column `c` whose row index is `c` (the diagonal is structurally present and indexed). -/
+theorem assembly_diag_full {P A : Csc α} {cones : List ConeSpec} {shape : MatrixTriangle}
+    {K : Csc α} {map : LDLDataMap} (hin : KktInputs P A cones)
+    (h : assembleKktMatrix P A cones shape = .ok (K, map)) (c : Nat) (hc : c < kktDim A cones) :
+    ∃ d p q, map.diag_full[c]? = some d ∧ K.colptr[c]? = some p ∧ K.colptr[c + 1]? = some q ∧
+      p ≤ d ∧ d < q ∧ K.rowval[d]? = some c := by
+  obtain ⟨v, d, hd, p, q, h1, h2, h3, h4, h5, _⟩ := (assembly_maps hin h).diag_full.2 c hc
+  exact ⟨d, p, q, hd, h1, h2, h3, h4, h5⟩
+
+/-- non-vacuity of `KktInputs` (hence of all theorems of this section, `assembly_total`
+providing the `.ok` hypothesis): `P = [[4,1],[·,·]]` (no diagonal in column 1), `A` 6×2 with two
+entries, cones `[nonneg 1, soc 5]` (one sparse expansion). -/
+example : ∃ (P A : Csc Int) (cones : List ConeSpec), KktInputs P A cones ∧
+    ∃ K map, assembleKktMatrix P A cones .triu = .ok (K, map) := by
+  let P : Csc Int := ⟨2, 2, #[0, 1, 2], #[0, 0], #[4, 1]⟩
+  let A : Csc Int := ⟨6, 2, #[0, 1, 2], #[0, 3], #[7, -2]⟩
+  have hin : KktInputs P A [.nonneg 1, .soc 5] := by
+    refine ⟨⟨rfl, rfl, ?_, rfl, rfl, ?_, ?_⟩, ?_, rfl, ⟨rfl, rfl, ?_, rfl, rfl, ?_, ?_⟩, rfl, rfl⟩
+    · intro i hi; match i, hi with
+      | 0, _ => decide
+      | 1, _ => decide
+    · intro j hj; match j, hj with
+      | 0, _ => decide
+      | 1, _ => decide
+    · intro i hi j h1 h2; match i, hi with
+      | 0, _ => exact absurd h2 (by show ¬ j + 1 < 1; omega)
+      | 1, _ => exact absurd (show 1 ≤ j from h1) (by have : j + 1 < 2 := h2; omega)
+    · intro i hi j h1 h2; match i, hi with
+      | 0, _ => have : j = 0 := by have : j < 1 := h2; omega
+                subst this; decide
+      | 1, _ => have : j = 1 := by have h3 : 1 ≤ j := h1; have h4 : j < 2 := h2; omega
+                subst this; decide
+    · intro i hi; match i, hi with
+      | 0, _ => decide
+      | 1, _ => decide
+    · intro j hj; match j, hj with
+      | 0, _ => decide
+      | 1, _ => decide
+    · intro i hi j h1 h2; match i, hi with
+      | 0, _ => exact absurd h2 (by show ¬ j + 1 < 1; omega)
+      | 1, _ => exact absurd (show 1 ≤ j from h1) (by have : j + 1 < 2 := h2; omega)
+  obtain ⟨K, map, _, h, _⟩ := assembly_total P A [.nonneg 1, .soc 5] .triu hin
+  exact ⟨P, A, _, hin, K, map, h⟩
+
+end assembly_total
+
+-- ====================================================================================
+-- inertia: the recorded signs are the pivot signs, in any elimination order (round 3)
+-- ====================================================================================
+
+section inertia
+open Clarabel.Lemmas.KktInertia
+
+variable {ι : Type} [Fintype ι] [DecidableEq ι]
+  {α : Type} [Field α] [LinearOrder α] [IsStrictOrderedRing α]
+
+/-
+  Dense model of symmetric elimination (`Lemmas/KktInertia.lean`): `elim K p` is the Schur
+  complement w.r.t. the diagonal pivot `p`; `pivots K order` the list of pivots met when
+  eliminating `order` (the diagonal `D` of `LDLᵀ` for that permutation); `QuasiDef K s S`:
+  `K` symmetric, positive definite on vectors supported on the `+` indices of `S`, negative
+  definite on vectors supported on the `−` indices of `S` (`s : ι → Bool` is the sign pattern).
+  NOT covered: that QDLDL's sparse `LDLᵀ` computes these pivots (C12 owns QDLDL); the `QuasiDef`
+  hypothesis is discharged for cone lists without expansions (`inertia_dsigns`) and for ONE
+  second-order-cone expansion (`inertia_soc_expansion`), not for generalised power cones nor for
+  several expansions at once (there only the general-pattern `inertia_any_order` applies).
+-/
+
+/-- [F] `C11.inertia_step` (Vanderbei's step): a symmetric quasidefinite matrix has, at ANY
+active index, a diagonal entry of the recorded sign (in particular a nonzero pivot), and the
+Schur complement w.r.t. that pivot is again quasidefinite with the same sign pattern on the
+remaining indices. -/
+theorem inertia_step {K : ι → ι → α} {s : ι → Bool} {S : Finset ι} {p : ι}
+    (h : QuasiDef K s S) (hp : p ∈ S) :
+    (if s p then 0 < K p p else K p p < 0) ∧
+      QuasiDef (Clarabel.Lemmas.KktInertia.elim K p) s (S.erase p) :=
+  ⟨h.pivot_sign hp, h.elim hp⟩
+
+/-- [F] `C11.inertia_any_order`: for EVERY elimination order (distinct active indices) of a
+quasidefinite matrix with sign pattern `s`, the `k`-th pivot has the sign `s order[k]`; no pivot
+vanishes, so `LDLᵀ` exists without pivoting for every symmetric permutation. -/
+theorem inertia_any_order {K : ι → ι → α} {s : ι → Bool} {S : Finset ι} (order : List ι)
+    (h : QuasiDef K s S) (hnd : order.Nodup) (hS : ∀ p ∈ order, p ∈ S)
+    (k : Nat) (hk : k < order.length) :
+    (if s order[k] then 0 < (pivots K order)[k]'(by rw [length_pivots]; exact hk)
+     else (pivots K order)[k]'(by rw [length_pivots]; exact hk) < 0) ∧
+    ∀ d ∈ pivots K order, d ≠ 0 :=
+  ⟨pivots_have_signs order h hnd hS k hk, pivots_ne_zero order h hnd hS⟩
+
+/-- non-vacuity of `QuasiDef` with a sign pattern that is not two-block (`+,−,+`, an auxiliary
+`+` variable after the `−` block, as for a second-order-cone expansion). -/
+example : QuasiDef exK3 exS3 Finset.univ := exK3_quasiDef
+
+/-- [F] `C11.inertia_dsigns` (cone lists without sparse expansions): for
+`K = [[P+εI, Aᵀ],[A, −(H+εI)]]` with `P, H` symmetric positive semidefinite, `ε > 0`, and ANY
+elimination order, the pivot met at KKT index `j` (`j = i` for a primal index, `j = n + i` for a
+dual index) is positive where `dsigns[j] = +1` and negative where `dsigns[j] = −1`, `dsigns`
+being what `_fill_signs` records. -/
+theorem inertia_dsigns {n m : Nat} {P : Fin n → Fin n → α} (A : Fin m → Fin n → α)
+    {H : Fin m → Fin m → α} {ε : α} (hP : PosSemidef P) (hH : PosSemidef H) (hε : 0 < ε)
+    (order : List (Fin n ⊕ Fin m)) (hnd : order.Nodup) (k : Nat) (hk : k < order.length) :
+    ∃ dsigns, fillSigns m n #[] = .ok dsigns ∧
+      ((dsigns[Sum.elim (fun i : Fin n => i.val) (fun i : Fin m => n + i.val) order[k]]? = some 1 ∧
+          0 < (pivots (kkt P A H ε) order)[k]'(by rw [length_pivots]; exact hk)) ∨
+       (dsigns[Sum.elim (fun i : Fin n => i.val) (fun i : Fin m => n + i.val) order[k]]? = some (-1) ∧
+          (pivots (kkt P A H ε) order)[k]'(by rw [length_pivots]; exact hk) < 0)) := by
+  refine ⟨_, signs m n #[], ?_⟩
+  have hs := kkt_pivot_signs A hP hH hε order hnd k hk
+  cases ho : order[k] with
+  | inl i =>
+    rw [ho] at hs
+    left
+    refine ⟨?_, by simpa using hs⟩
+    simp only [Sum.elim_inl]
+    have hi := i.isLt
+    simp [List.getElem?_append, hi]
+  | inr i =>
+    rw [ho] at hs
+    right
+    refine ⟨?_, by simpa using hs⟩
+    simp only [Sum.elim_inr]
+    have hi := i.isLt
+    simp [hi]
+
+/-- [F] `C11.inertia_soc_expansion`: the regularised KKT matrix WITH the sparse expansion of a
+second-order cone (`socKkt`: primal block `P + εI`, cone rows `−(η²D + εI)`, the two auxiliary
+columns `−η²v`, `−η²u`, auxiliary diagonal `−η² − ε`, `η² + ε`; `u, v, d` satisfying the
+defining equations `SocSparse` of `update_scaling`) is quasidefinite for the sign pattern
+`+ (primal), − (cone rows), − (v-aux), + (u-aux)` — exactly what `_fill_signs` records
+(`[-1, +1]` on the two auxiliary columns, `assembly_signs`) — hence for ANY elimination order the
+`n`-th `LDLᵀ` pivot has that sign, and no pivot vanishes.  (Needs `D − vv' ⪰ 0`, a consequence of
+`SocSparse` in an ordered field, `KktInertiaSoc.soc_D_sub_vv_nonneg`.) -/
+theorem inertia_soc_expansion {ι₁ : Type} [Fintype ι₁] [DecidableEq ι₁] {k : ℕ}
+    {P : ι₁ → ι₁ → α} (A : Fin (k + 1) → ι₁ → α) {η ε : α}
+    {w0 : α} {w1 : Fin k → α} {d u0 u1 v1 : α}
+    (hP : PosSemidef P) (hε : 0 < ε) (hη : η ≠ 0)
+    (h : Clarabel.Lemmas.KktExpansion.SocSparse w0 w1 d u0 u1 v1)
+    (order : List (ι₁ ⊕ (Fin (k + 1) ⊕ Fin 2))) (hnd : order.Nodup)
+    (n : Nat) (hn : n < order.length) :
+    QuasiDef (Clarabel.Lemmas.KktInertiaSoc.socKkt P A η ε d u0 u1 v1 w1)
+      Clarabel.Lemmas.KktInertiaSoc.socSigns Finset.univ ∧
+    (if Clarabel.Lemmas.KktInertiaSoc.socSigns order[n] then
+      0 < (pivots (Clarabel.Lemmas.KktInertiaSoc.socKkt P A η ε d u0 u1 v1 w1) order)[n]'(by
+        rw [length_pivots]; exact hn)
+    else
+      (pivots (Clarabel.Lemmas.KktInertiaSoc.socKkt P A η ε d u0 u1 v1 w1) order)[n]'(by
+        rw [length_pivots]; exact hn) < 0) ∧
+    ∀ piv ∈ pivots (Clarabel.Lemmas.KktInertiaSoc.socKkt P A η ε d u0 u1 v1 w1) order, piv ≠ 0 :=
+  ⟨Clarabel.Lemmas.KktInertiaSoc.quasiDef_socKkt A hP hε hη h,
+   Clarabel.Lemmas.KktInertiaSoc.socKkt_pivot_signs A hP hε hη h order hnd n hn,
+   Clarabel.Lemmas.KktInertiaSoc.socKkt_pivots_ne_zero A hP hε hη h order hnd⟩
+
+/-- non-vacuity of `inertia_soc_expansion` (over ℝ): `P = [1]`, `w = (5/4, 3/4)`, `η = 2`,
+`ε = 1/10`. -/
+example : ∃ d u0 u1 v1 : ℝ, PosSemidef (fun (_ _ : Fin 1) => (1 : ℝ)) ∧ (0 : ℝ) < 1 / 10 ∧
+    (2 : ℝ) ≠ 0 ∧
+    Clarabel.Lemmas.KktExpansion.SocSparse (n := 1) (5 / 4 : ℝ) (fun _ => 3 / 4) d u0 u1 v1 :=
+  ⟨_, _, _, _, Clarabel.Lemmas.KktInertiaSoc.exP_psd_real, by norm_num, by norm_num,
+    Clarabel.Lemmas.KktExpansion.soc_sparse_real _ _ (by
+      simp [Clarabel.Lemmas.KktExpansion.dot]; norm_num)⟩
+
+/-- non-vacuity: `P = [1]`, `H = [2]` are positive semidefinite (over ℚ). -/
+example : PosSemidef (fun (_ _ : Fin 1) => (1 : ℚ)) ∧ PosSemidef (fun (_ _ : Fin 1) => (2 : ℚ)) :=
+  ⟨exP_psd, exH_psd⟩
+
+end inertia
 
 -- ====================================================================================
 -- sparse expansions
@@ -362,6 +714,326 @@ theorem update_writes_genpow_expansion (nz nz' : Array α) (map : LDLDataMap)
   updateValues_sparse_entries_genpow nz nz' map cones hdisj h hc hm hndm hp hq hr hD
 
 end update
+
+-- ====================================================================================
+-- update writes a block whose Schur complement is −mul_Hs (round 3)
+-- ====================================================================================
+
+section update_schur
+open Clarabel.Lemmas.KktUpdateSchur Clarabel.Lemmas.KktUpdateAsm
+open Clarabel.Lemmas.KktSpec
+open Clarabel.Lemmas.KktFillRun (nSparse)
+
+/-- [S] `C11.assembly_maps_distinct`: the index vectors produced by `assemble_kkt_matrix` never
+share a position: `map.Hsblocks` has no repetition, no expansion index vector meets it,
+different expansion maps are disjoint, no expansion map repeats a position.  (These are the
+side conditions of all theorems about `update`; they hold for the solver's own maps.) -/
+theorem assembly_maps_distinct {α : Type} [OfNat α 0] {P A : Csc α} {cones : List ConeSpec}
+    {shape : MatrixTriangle} {K : Csc α} {map : LDLDataMap} (hin : KktInputs P A cones)
+    (h : assembleKktMatrix P A cones shape = .ok (K, map)) :
+    map.Hsblocks.toList.Nodup ∧
+    (∀ mp ∈ map.sparse_maps.toList, ∀ j ∈ mp.indices, j ∉ map.Hsblocks.toList) ∧
+    SparseMapsDisjoint map.sparse_maps ∧
+    (∀ mp ∈ map.sparse_maps.toList, mp.indices.Nodup) := by
+  obtain ⟨sched, Kc, nd, R⟩ := asmRun_of_ok hin h
+  exact R.maps_distinct hin.m_eq
+
+variable {α : Type} [Field α] [LinearOrder α] [IsStrictOrderedRing α] [FloatLike α]
+
+/-
+  `readAt nz idx k = nz[idx[k]]`, `readFrom nz idx off k = nz[idx[off + k]]`: the numbers READ
+  BACK from the value array through an index vector; `readCol nz idx lo`: the same for a vector
+  that only covers the rows `lo ..` of the cone (zero elsewhere), `placeAt a lo` the vector `a`
+  placed at rows `lo ..` (`Lemmas/KktUpdateSchur.lean`).
+-/
+
+/-- [F] `C11.update_soc_schur`: **`update` writes a second-order-cone block whose Schur
+complement is `−mul_Hs`.**  The theorem is about the model function `updateValues`
+(`DirectLDLKKTSolver::update` up to the refactorisation): for the sparse cone
+`.socSparse (n+1) η u v d` at position `|pre|` of the cone list, with `u, v, d` the vectors of
+the algebra (`SocSparse`), let `Dv, Vv, Uv, dv, du` be the numbers read back from the result `nz'`
+through `map.Hsblocks` (offset `Σ|get_Hs|` of the earlier cones) and the expansion map
+`.soc mu mv mD`.  If `(x, a, b)` satisfies the three block rows of the expanded system built from
+them, the cone rows say `r = −η²(2ww' − J)x = −mul_Hs x`. -/
+theorem update_soc_schur (nz nz' : Array α) (map : LDLDataMap)
+    (pre post : List (ConeScaling α)) (bpre : List (Array α))
+    {n : ℕ} {η d : α} {u v : Array α} {mu mv mD : Array Nat}
+    {w0 u0 u1 v1 : α} {w1 : Fin n → α}
+    (hnd : map.Hsblocks.toList.Nodup)
+    (hdisjH : ∀ mp ∈ map.sparse_maps.toList, ∀ j ∈ mp.indices, j ∉ map.Hsblocks.toList)
+    (hdisj : SparseMapsDisjoint map.sparse_maps)
+    (h : updateValues nz map (pre ++ .socSparse (n + 1) η u v d :: post) = .ok nz')
+    (hpre : pre.mapM getHs = .ok bpre)
+    (hHs : (bpre.map Array.size).sum + (n + 1) ≤ map.Hsblocks.size)
+    (hm : map.sparse_maps[(pre.filter (fun c => c.isSparse)).length]? = some (.soc mu mv mD))
+    (hndm : (SparseMap.soc mu mv mD).indices.Nodup)
+    (hmu : mu.size = u.size) (hmv : mv.size = v.size) (hmD : mD.size = 2)
+    (huk : ∀ k : Fin (n + 1), u[k.val]? = some (socU u0 u1 w1 k))
+    (hvk : ∀ k : Fin (n + 1), v[k.val]? = some (socV v1 w1 k))
+    (hs : SocSparse w0 w1 d u0 u1 v1) (hη : η ≠ 0)
+    (x r : Fin (n + 1) → α) (a b : α)
+    (hrow : ∀ k, readFrom nz' map.Hsblocks (bpre.map Array.size).sum k * x k
+        + readAt nz' mv k * a + readAt nz' mu k * b = r k)
+    (hrowv : dot (readAt nz' mv) x + nz'.getD (mD.getD 0 0) 0 * a = 0)
+    (hrowu : dot (readAt nz' mu) x + nz'.getD (mD.getD 1 0) 0 * b = 0) :
+    ∀ k, r k = -(socMulHs η (socW w0 w1) x k) :=
+  updateValues_soc_schur nz nz' map pre post bpre hnd hdisjH hdisj h hpre hHs hm hndm hmu hmv hmD
+    huk hvk hs hη x r a b hrow hrowv hrowu
+
+/-- non-vacuity of `update_soc_schur`: cone list `[nonneg, sparse SOC]`, a 9-entry value array;
+every hypothesis holds, for every `x` (over ℝ, `w = (5/4, 3/4)`, `η = 2`). -/
+example (x : Fin 2 → ℝ) :
+    ∃ (d u0 u1 v1 : ℝ) (nz' : Array ℝ) (a b : ℝ) (r : Fin 2 → ℝ),
+      SocSparse (n := 1) (5 / 4 : ℝ) (fun _ => 3 / 4) d u0 u1 v1 ∧
+      updateValues (#[0, 0, 0, 0, 0, 0, 0, 0, 0] : Array ℝ) exMap
+        [.nonneg #[3], .socSparse 2 2
+          #[socU u0 u1 (fun _ : Fin 1 => 3 / 4) 0, socU u0 u1 (fun _ : Fin 1 => 3 / 4) 1]
+          #[socV v1 (fun _ : Fin 1 => 3 / 4) 0, socV v1 (fun _ : Fin 1 => 3 / 4) 1] d]
+        = .ok nz' ∧
+      (∀ k, readFrom nz' exMap.Hsblocks 1 k * x k + readAt nz' #[5, 6] k * a
+        + readAt nz' #[3, 4] k * b = r k) ∧
+      dot (readAt nz' #[5, 6]) x + nz'.getD 7 0 * a = 0 ∧
+      dot (readAt nz' #[3, 4]) x + nz'.getD 8 0 * b = 0 ∧
+      ∀ k, r k = -(socMulHs 2 (socW (5 / 4) (fun _ => 3 / 4)) x k) := by
+  have hs := soc_sparse_real (n := 1) (5 / 4 : ℝ) (fun _ => 3 / 4) (by simp [dot]; norm_num)
+  obtain ⟨nz', a, b, r, h⟩ := exSoc (t := 3) hs two_ne_zero x
+  exact ⟨_, _, _, _, nz', a, b, r, hs, h⟩
+
+/-- [F] `C11.update_soc_mulHs_model`: the `−mul_Hs` of `update_soc_schur` is literally the cone
+model's `mul_Hs` (`Soc.mulHsCore`, model of `socone.rs::mul_Hs`): first entry and tail. -/
+theorem update_soc_mulHs_model {n : ℕ} (η w0 x0 : α) (w1 x1 : Fin n → α) (r : Fin (n + 1) → α)
+    (h : ∀ k, r k = -(socMulHs η (socW w0 w1) (Fin.cons x0 x1) k)) :
+    r 0 = -(Soc.mulHsCore x0 (List.ofFn x1) w0 (List.ofFn w1) η).1 ∧
+    List.ofFn (fun i : Fin n => r i.succ)
+      = (Soc.mulHsCore x0 (List.ofFn x1) w0 (List.ofFn w1) η).2.map (fun y => -y) :=
+  neg_mulHsCore_of_schur η w0 x0 w1 x1 r h
+
+/-- [F] `C11.update_genpow_schur`: the same for a generalised power cone
+`.genpow μ p q r d1 d2` (given `√μ·√μ = μ`): the block read back from the result of
+`updateValues` — `−μD`, the three columns `−√μ q` (rows `0..`), `−√μ r` (rows `dim1..`),
+`−√μ p`, diagonal `−1, −1, +1` — has Schur complement
+`−μ(D + pp' − q̃q̃' − r̃r̃')`, i.e. `−mul_Hs` (`q̃, r̃`: `q, r` extended by zeros). -/
+theorem update_genpow_schur (nz nz' : Array α) (map : LDLDataMap)
+    (pre post : List (ConeScaling α)) (bpre : List (Array α))
+    {μ d2 : α} {p q r d1 : Array α} {mp mq mr mD : Array Nat}
+    (hnd : map.Hsblocks.toList.Nodup)
+    (hdisjH : ∀ mp ∈ map.sparse_maps.toList, ∀ j ∈ mp.indices, j ∉ map.Hsblocks.toList)
+    (hdisj : SparseMapsDisjoint map.sparse_maps)
+    (h : updateValues nz map (pre ++ .genpow μ p q r d1 d2 :: post) = .ok nz')
+    (hpre : pre.mapM getHs = .ok bpre)
+    (hHs : (bpre.map Array.size).sum + (d1.size + r.size) ≤ map.Hsblocks.size)
+    (hm : map.sparse_maps[(pre.filter (fun c => c.isSparse)).length]?
+      = some (.genpow mp mq mr mD))
+    (hndm : (SparseMap.genpow mp mq mr mD).indices.Nodup)
+    (hmp : mp.size = p.size) (hmq : mq.size = q.size) (hmr : mr.size = r.size)
+    (hmD : mD.size = 3)
+    (hsm : sqrt μ * sqrt μ = μ)
+    (x rhs : Fin (d1.size + r.size) → α) (a b c : α)
+    (hrow : ∀ k, readFrom nz' map.Hsblocks (bpre.map Array.size).sum k * x k
+        + readCol nz' mq 0 k * a + readCol nz' mr d1.size k * b + readCol nz' mp 0 k * c
+        = rhs k)
+    (hrowq : dot (readCol nz' mq 0) x + nz'.getD (mD.getD 0 0) 0 * a = 0)
+    (hrowr : dot (readCol nz' mr d1.size) x + nz'.getD (mD.getD 1 0) 0 * b = 0)
+    (hrowp : dot (readCol nz' mp 0) x + nz'.getD (mD.getD 2 0) 0 * c = 0) :
+    ∀ k, rhs k = -(genpowMulHs μ (genpowD d1 d2) (placeAt p 0) (placeAt q 0)
+      (placeAt r d1.size) x k) :=
+  updateValues_genpow_schur nz nz' map pre post bpre hnd hdisjH hdisj h hpre hHs hm hndm hmp hmq
+    hmr hmD hsm x rhs a b c hrow hrowq hrowr hrowp
+
+/-- non-vacuity of `update_genpow_schur` (over ℝ, `μ = 4`): cone list `[nonneg, genpow(2,1)]`. -/
+example (x : Fin 3 → ℝ) :
+    ∃ (nz' : Array ℝ) (a b c : ℝ) (rhs : Fin 3 → ℝ),
+      updateValues (#[0, 0, 0, 0, 0, 0, 0, 0, 0, 0, 0, 0, 0] : Array ℝ) exMapG
+        [.nonneg #[3], .genpow 4 #[1, 2, 3] #[4, 5] #[6] #[7, 8] 9] = .ok nz' ∧
+      (∀ k, readFrom nz' exMapG.Hsblocks 1 k * x k + readCol nz' #[7, 8] 0 k * a
+        + readCol nz' #[9] 2 k * b + readCol nz' #[4, 5, 6] 0 k * c = rhs k) ∧
+      dot (readCol nz' #[7, 8] 0) x + nz'.getD 10 0 * a = 0 ∧
+      dot (readCol nz' #[9] 2) x + nz'.getD 11 0 * b = 0 ∧
+      dot (readCol nz' #[4, 5, 6] 0) x + nz'.getD 12 0 * c = 0 ∧
+      ∀ k, rhs k = -(genpowMulHs 4 (genpowD #[7, 8] 9) (placeAt #[1, 2, 3] 0)
+        (placeAt #[4, 5] 0) (placeAt #[6] 2) x k) :=
+  exGenpow (Real.mul_self_sqrt (by norm_num)) x
+
+/-- [F] `C11.assemble_update_soc_schur`: **`update ∘ assemble`** — the statement of
+`update_soc_schur` for the index maps that `assemble_kkt_matrix` PRODUCED (all side conditions
+on the maps discharged by the assembly theorems): `K, map` returned for the cone list
+`preS ++ soc(n+1) :: postS` (above the expansion threshold), a scaling list whose prefix has
+the layout of `preS` (`LayoutFits`), expansion data satisfying `SocSparse`. -/
+theorem assemble_update_soc_schur {P A : Csc α} {preS postS : List ConeSpec}
+    {shape : MatrixTriangle} {K : Csc α} {map : LDLDataMap} {n : ℕ}
+    (hin : KktInputs P A (preS ++ ConeSpec.soc (n + 1) :: postS))
+    (hasm : assembleKktMatrix P A (preS ++ ConeSpec.soc (n + 1) :: postS) shape = .ok (K, map))
+    (hbig : n + 1 > socNoExpansionMaxSize)
+    (nz nz' : Array α) (pre post : List (ConeScaling α)) {η d : α} {u v : Array α}
+    (hfits : LayoutFits pre preS)
+    (h : updateValues nz map (pre ++ .socSparse (n + 1) η u v d :: post) = .ok nz')
+    (husz : u.size = n + 1) (hvsz : v.size = n + 1)
+    {w0 u0 u1 v1 : α} {w1 : Fin n → α}
+    (huk : ∀ k : Fin (n + 1), u[k.val]? = some (socU u0 u1 w1 k))
+    (hvk : ∀ k : Fin (n + 1), v[k.val]? = some (socV v1 w1 k))
+    (hs : SocSparse w0 w1 d u0 u1 v1) (hη : η ≠ 0) :
+    ∃ mu mv mD, map.sparse_maps[nSparse preS]? = some (.soc mu mv mD) ∧
+      ∀ (x r : Fin (n + 1) → α) (a b : α),
+        (∀ k, readFrom nz' map.Hsblocks (preS.map ConeSpec.blockLen).sum k * x k
+          + readAt nz' mv k * a + readAt nz' mu k * b = r k) →
+        dot (readAt nz' mv) x + nz'.getD (mD.getD 0 0) 0 * a = 0 →
+        dot (readAt nz' mu) x + nz'.getD (mD.getD 1 0) 0 * b = 0 →
+        ∀ k, r k = -(socMulHs η (socW w0 w1) x k) :=
+  Clarabel.Lemmas.KktUpdateAsm.assemble_update_soc_schur hin hasm hbig nz nz' pre post hfits h
+    husz hvsz huk hvk hs hη
+
+/-- [F] `C11.assemble_update_genpow_schur`: `update ∘ assemble` for a generalised power cone. -/
+theorem assemble_update_genpow_schur {P A : Csc α} {preS postS : List ConeSpec}
+    {shape : MatrixTriangle} {K : Csc α} {map : LDLDataMap}
+    (nz nz' : Array α) (pre post : List (ConeScaling α)) {μ d2 : α} {p q r d1 : Array α}
+    (hin : KktInputs P A (preS ++ ConeSpec.genpow d1.size r.size :: postS))
+    (hasm : assembleKktMatrix P A (preS ++ ConeSpec.genpow d1.size r.size :: postS) shape
+      = .ok (K, map))
+    (hfits : LayoutFits pre preS)
+    (h : updateValues nz map (pre ++ .genpow μ p q r d1 d2 :: post) = .ok nz')
+    (hpsz : p.size = d1.size + r.size) (hqsz : q.size = d1.size)
+    (hsm : sqrt μ * sqrt μ = μ) :
+    ∃ mp mq mr mD, map.sparse_maps[nSparse preS]? = some (.genpow mp mq mr mD) ∧
+      ∀ (x rhs : Fin (d1.size + r.size) → α) (a b c : α),
+        (∀ k, readFrom nz' map.Hsblocks (preS.map ConeSpec.blockLen).sum k * x k
+          + readCol nz' mq 0 k * a + readCol nz' mr d1.size k * b + readCol nz' mp 0 k * c
+          = rhs k) →
+        dot (readCol nz' mq 0) x + nz'.getD (mD.getD 0 0) 0 * a = 0 →
+        dot (readCol nz' mr d1.size) x + nz'.getD (mD.getD 1 0) 0 * b = 0 →
+        dot (readCol nz' mp 0) x + nz'.getD (mD.getD 2 0) 0 * c = 0 →
+        ∀ k, rhs k = -(genpowMulHs μ (genpowD d1 d2) (placeAt p 0) (placeAt q 0)
+          (placeAt r d1.size) x k) :=
+  Clarabel.Lemmas.KktUpdateAsm.assemble_update_genpow_schur nz nz' pre post hin hasm hfits h
+    hpsz hqsz hsm
+
+end update_schur
+
+section update_assembled
+open Clarabel.Lemmas.KktUpdateAsm Clarabel.Lemmas.KktUpdateTotal Clarabel.Lemmas.KktSpec
+open Clarabel.Lemmas.KktFinal (SlotIs)
+open Clarabel.Lemmas.KktSlots (tri)
+open Clarabel.Lemmas.KktSorted (Canon)
+
+variable {α : Type} [Add α] [Sub α] [Mul α] [Div α] [Neg α] [OfNat α 0] [OfNat α 1]
+  [LT α] [DecidableLT α] [FloatLike α]
+
+/-- [S] `C11.assemble_update_total`: **`update` never panics on the solver's own maps** — the
+maps returned by `assemble_kkt_matrix`, a value array of the assembled length, scaling data that
+have the layout of the cone list (`LayoutFits`: same cone kinds and dimensions) and whose `get_Hs`
+succeed. -/
+theorem assemble_update_total {P A : Csc α} {cones : List ConeSpec} {shape : MatrixTriangle}
+    {K : Csc α} {map : LDLDataMap} (hin : KktInputs P A cones)
+    (hasm : assembleKktMatrix P A cones shape = .ok (K, map))
+    (nz : Array α) (hnz : nz.size = K.nzval.size)
+    (scal : List (ConeScaling α)) (hfits : LayoutFits scal cones)
+    (blocks : List (Array α)) (hget : scal.mapM getHs = .ok blocks) :
+    ∃ nz', updateValues nz map scal = .ok nz' :=
+  Clarabel.Lemmas.KktUpdateTotal.assemble_update_total hin hasm nz hnz scal hfits blocks hget
+
+/-- [S] `C11.assemble_update_Hs`: `update` on the assembled maps writes `−get_Hs` into the Hs
+positions, entry for entry, for every cone list with the layout of the assembled one: the
+flattened `get_Hs` values have exactly the length of `map.Hsblocks`, and `map.Hsblocks[k]` holds
+`−get_Hs[k]` afterwards (its coordinate is given by `assembly_maps`). -/
+theorem assemble_update_Hs {P A : Csc α} {cones : List ConeSpec} {shape : MatrixTriangle}
+    {K : Csc α} {map : LDLDataMap} (hin : KktInputs P A cones)
+    (hasm : assembleKktMatrix P A cones shape = .ok (K, map))
+    (nz nz' : Array α) (scal : List (ConeScaling α)) (hfits : LayoutFits scal cones)
+    (h : updateValues nz map scal = .ok nz') :
+    ∃ blocks, scal.mapM getHs = .ok blocks ∧
+      ((blocks.map Array.toList).flatten).length = map.Hsblocks.size ∧
+      ∀ k (hk : k < map.Hsblocks.size) (hk2 : k < ((blocks.map Array.toList).flatten).length),
+        nz'[map.Hsblocks[k]]? = some (-((blocks.map Array.toList).flatten)[k]) :=
+  Clarabel.Lemmas.KktUpdateAsm.assemble_update_Hs hin hasm nz nz' scal hfits h
+
+/-- [S] `C11.assemble_update_PA_unchanged`: after `update` on the assembled matrix, every stored
+entry of `P` and of `A` is still at its position `map.P[j]` / `map.A[j]`, at its coordinate, with
+its value (`update` only writes Hs blocks and expansion vectors, which are other positions): the
+updated matrix is `[P Aᵀ; A ·]` outside the cone blocks. -/
+theorem assemble_update_PA_unchanged {P A : Csc α} {cones : List ConeSpec}
+    {shape : MatrixTriangle} {K : Csc α} {map : LDLDataMap} (hin : KktInputs P A cones)
+    (hasm : assembleKktMatrix P A cones shape = .ok (K, map))
+    (scal : List (ConeScaling α)) (nz' : Array α)
+    (h : updateValues K.nzval map scal = .ok nz') :
+    nz'.size = K.nzval.size ∧
+    (∀ i j r v, i < P.n → P.colptr.getD i 0 ≤ j → j < P.colptr.getD (i + 1) 0 →
+      P.rowval[j]? = some r → P.nzval[j]? = some v →
+      SlotIs { K with nzval := nz' } map.P[j]? (tri shape r i).1 (tri shape r i).2 v) ∧
+    (∀ i j r v, i < A.n → A.colptr.getD i 0 ≤ j → j < A.colptr.getD (i + 1) 0 →
+      A.rowval[j]? = some r → A.nzval[j]? = some v →
+      SlotIs { K with nzval := nz' } map.A[j]? (tri shape i (r + A.n)).1 (tri shape i (r + A.n)).2 v) :=
+  assemble_update_PA hin hasm scal nz' h
+
+end update_assembled
+
+/-- non-vacuity of the `update ∘ assemble` theorems (`assemble_update_soc_schur`,
+`assemble_update_total`, `assemble_update_PA_unchanged`): `P` 2×2, `A` 6×2, cones
+`[nonneg 1, soc 5]`, scaling `[nonneg (1), socSparse 5]` with `w = e₀`, `η = 2`, over ℝ — every
+hypothesis holds for the maps that the model's `assemble_kkt_matrix` returns. -/
+example : ∃ (P A K : Csc ℝ) (map : LDLDataMap) (nz' : Array ℝ) (d u0 u1 v1 : ℝ),
+    Clarabel.Lemmas.KktSpec.KktInputs P A ([.nonneg 1] ++ ConeSpec.soc (4 + 1) :: []) ∧
+    assembleKktMatrix P A ([.nonneg 1] ++ ConeSpec.soc (4 + 1) :: []) .triu = .ok (K, map) ∧
+    4 + 1 > socNoExpansionMaxSize ∧
+    Clarabel.Lemmas.KktUpdateAsm.LayoutFits [ConeScaling.nonneg #[(1 : ℝ)]] [.nonneg 1] ∧
+    SocSparse (n := 4) (1 : ℝ) (fun _ => 0) d u0 u1 v1 ∧
+    updateValues K.nzval map ([.nonneg #[1]] ++ .socSparse (4 + 1) 2
+      (Array.ofFn (socU u0 u1 (fun _ : Fin 4 => (0 : ℝ))))
+      (Array.ofFn (socV v1 (fun _ : Fin 4 => (0 : ℝ)))) d :: []) = .ok nz' ∧
+    (∀ k : Fin (4 + 1), (Array.ofFn (socU u0 u1 (fun _ : Fin 4 => (0 : ℝ))))[k.val]?
+      = some (socU u0 u1 (fun _ : Fin 4 => (0 : ℝ)) k)) := by
+  let P : Csc ℝ := ⟨2, 2, #[0, 1, 2], #[0, 0], #[4, 1]⟩
+  let A : Csc ℝ := ⟨6, 2, #[0, 1, 2], #[0, 3], #[7, -2]⟩
+  have hin : Clarabel.Lemmas.KktSpec.KktInputs P A [.nonneg 1, .soc 5] := by
+    refine ⟨⟨rfl, rfl, ?_, rfl, rfl, ?_, ?_⟩, ?_, rfl, ⟨rfl, rfl, ?_, rfl, rfl, ?_, ?_⟩, rfl, rfl⟩
+    · intro i hi; match i, hi with
+      | 0, _ => decide
+      | 1, _ => decide
+    · intro j hj; match j, hj with
+      | 0, _ => decide
+      | 1, _ => decide
+    · intro i hi j h1 h2; match i, hi with
+      | 0, _ => exact absurd h2 (by show ¬ j + 1 < 1; omega)
+      | 1, _ => exact absurd (show 1 ≤ j from h1) (by have : j + 1 < 2 := h2; omega)
+    · intro i hi j h1 h2; match i, hi with
+      | 0, _ => have : j = 0 := by have : j < 1 := h2; omega
+                subst this; decide
+      | 1, _ => have : j = 1 := by have h3 : 1 ≤ j := h1; have h4 : j < 2 := h2; omega
+                subst this; decide
+    · intro i hi; match i, hi with
+      | 0, _ => decide
+      | 1, _ => decide
+    · intro j hj; match j, hj with
+      | 0, _ => decide
+      | 1, _ => decide
+    · intro i hi j h1 h2; match i, hi with
+      | 0, _ => exact absurd h2 (by show ¬ j + 1 < 1; omega)
+      | 1, _ => exact absurd (show 1 ≤ j from h1) (by have : j + 1 < 2 := h2; omega)
+  obtain ⟨K, map, _, hasm, _⟩ := assembly_total P A [.nonneg 1, .soc 5] .triu hin
+  have hs := soc_sparse_real (n := 4) (1 : ℝ) (fun _ => 0) (by simp [dot])
+  obtain ⟨d, u0, u1, v1, hs⟩ : ∃ d u0 u1 v1, SocSparse (n := 4) (1 : ℝ) (fun _ => 0) d u0 u1 v1 :=
+    ⟨_, _, _, _, hs⟩
+  have hfull : Clarabel.Lemmas.KktUpdateAsm.LayoutFits
+      [ConeScaling.nonneg #[(1 : ℝ)], .socSparse 5 2
+        (Array.ofFn (socU u0 u1 (fun _ : Fin 4 => (0 : ℝ))))
+        (Array.ofFn (socV v1 (fun _ : Fin 4 => (0 : ℝ)))) d] [.nonneg 1, .soc 5] :=
+    List.Forall₂.cons (by simp [Clarabel.Lemmas.KktUpdateAsm.ScalingFits])
+      (List.Forall₂.cons (by simp [Clarabel.Lemmas.KktUpdateAsm.ScalingFits, socNoExpansionMaxSize])
+        List.Forall₂.nil)
+  obtain ⟨blocks, hget⟩ := Clarabel.Lemmas.KktRun.mapM_exists (getHs (α := ℝ))
+    [ConeScaling.nonneg #[(1 : ℝ)], .socSparse 5 2
+      (Array.ofFn (socU u0 u1 (fun _ : Fin 4 => (0 : ℝ))))
+      (Array.ofFn (socV v1 (fun _ : Fin 4 => (0 : ℝ)))) d]
+    (by
+      intro c hc
+      simp only [List.mem_cons, List.mem_nil_iff, or_false] at hc
+      rcases hc with rfl | rfl
+      · exact ⟨_, rfl⟩
+      · exact ⟨_, rfl⟩)
+  obtain ⟨nz', hup⟩ := assemble_update_total hin hasm K.nzval rfl _ hfull blocks hget
+  refine ⟨P, A, K, map, nz', d, u0, u1, v1, hin, hasm, by decide,
+    List.Forall₂.cons (by simp [Clarabel.Lemmas.KktUpdateAsm.ScalingFits]) List.Forall₂.nil,
+    hs, hup, ?_⟩
+  intro k
+  simp
 
 -- ====================================================================================
 -- regularise / restore
